@@ -299,8 +299,17 @@ func genC14(d *Draw) Case {
 	}
 	acts := 1 + d.N(3)
 	g.addNode(&Node{ID: "Start", Kind: "start"})
+	// a throw event with the same definitions on a branch that is never taken: it only provides the
+	// element for the ThrowEventSatisfier cross-check
+	g.addNode(&Node{ID: "XT", Kind: "xor"})
+	g.connect(defs, "Start", "XT", nil, -1)
+	g.addNode(&Node{ID: "TH", Kind: "throw", Events: append([]EventDef{}, cm.Events...)})
+	g.connect(defs, "XT", "TH", &Cond{Var: "never", Want: true}, -1)
+	g.addNode(&Node{ID: "ET", Kind: "end"})
+	g.connect(defs, "TH", "ET", nil, -1)
 	g.addNode(&Node{ID: "LM", Kind: "xor"})
-	g.connect(defs, "Start", "LM", nil, -1)
+	dfx := g.connect(defs, "XT", "LM", nil, -1)
+	g.Node("XT").Default = dfx.ID
 	g.addNode(cm)
 	g.connect(defs, "LM", "CM", nil, -1)
 	tc := g.addNode(&Node{ID: "TC", Kind: "task", Results: []string{"r_TC", "i_TC"}, Counter: "i_TC"})
@@ -328,7 +337,7 @@ func genC14(d *Draw) Case {
 	for _, e := range cm.Events {
 		dd = append(dd, e.Ref)
 	}
-	c.Prog = &Program{Defs: defs, Vars: map[string]any{}, Desc: fmt.Sprintf("catch defs=%v parallelMultiple=%v activations<=%d events=%v", dd, cm.Parallel, acts, evd)}
+	c.Prog = &Program{Defs: defs, Vars: map[string]any{"never": false}, Desc: fmt.Sprintf("catch defs=%v parallelMultiple=%v activations<=%d events=%v", dd, cm.Parallel, acts, evd)}
 	c.Picks = drawPicks(d, 40)
 	c.Meta = map[string]int{"parallel": b2i(cm.Parallel), "ndefs": nd}
 	return c
